@@ -957,7 +957,7 @@ pub fn generate(g: &mut Gen, opts: &Opts) -> Module {
     let n_leaves = if n_funcs >= 2 { 1 + g.index((n_funcs / 2).max(1)) } else { 0 };
     for i in 0..n_funcs {
         let leaf = i >= n_funcs - n_leaves;
-        let straight = g.chance(1, 5);
+        let straight = g.chance(1, 4);
         m.funcs.push(FuncDecl { sig: gen_sig(g, 4), leaf: leaf || straight, straight });
     }
     m.rec = opts.recursion && g.chance(1, 3);
